@@ -24,10 +24,14 @@ Definition enc_item2 (it : item) : list Z :=
   | IElem id v => id :: zlen v :: v
   end.
 
+(* one-byte elements a receiver has to walk: any non-zero byte whose id nibble is not 15.  RFC 8285
+   reserves id 0 for padding, so senders use ids 1-14; the byte 0x0L with L <> 0 is nevertheless an
+   element header (id 0, L+1 value bytes) to the walk, and is included here so that the decoding
+   and re-encoding theorems cover every input the walk accepts. *)
 Definition wf_item1 (it : item) : Prop :=
   match it with
   | IPad => True
-  | IElem id v => 1 <= id <= 14 /\ 1 <= zlen v <= 16
+  | IElem id v => 0 <= id <= 14 /\ 1 <= zlen v <= 16 /\ (id = 0 -> 2 <= zlen v)
   end.
 
 Definition wf_item2 (it : item) : Prop :=
